@@ -737,6 +737,8 @@ def _const_norm(v):
             lit = ast.literal_eval(v.strip())
         except Exception:  # noqa: BLE001
             return v
+        if isinstance(lit, str):
+            return _const_norm(lit) if lit != v else lit  # `'x'` (a quoted string in backquotes) is the constant text x
         return '' if lit is None else f'<literal {lit!r}>'
     return f'<literal {v!r}>'
 
